@@ -24,10 +24,12 @@ extern "C" double k_pow(double, double);
 #endif
 extern "C" CVS_STEP_T g_step_rel, g_step_abs;
 extern "C" int g_sim_continuing, g_sim_running;
+extern "C" int k_same_step();
 extern "C" double k_boltzmann(); extern "C" double k_target_temperature(); extern "C" double k_dt();
 struct colvarproxy_stub_t {
   bool simulation_continuing() const { return g_sim_continuing != 0; }
   bool simulation_running() const { return g_sim_running != 0; }
+  bool total_forces_same_step() const { return k_same_step() != 0; }
 #ifdef CVS_SREAL
   sreal boltzmann() { double v = k_boltzmann(); sreal r(v); return r; }
   sreal target_temperature() { double v = k_target_temperature(); sreal r(v); return r; }
